@@ -43,7 +43,7 @@ Matching(s, op, e) ==
                        /\ (op.k = "str" => o.mark = e.mark)
                        /\ (op.k = "set" => (e.kept = "?" \/ o.chg = (e.kept = "F")))
                        \* an outcome in which reading replaced the stored object needs that observation
-                       /\ (op.k = "get" => (o.chg => e.kept = "F"))}
+                       /\ (op.k \in {"get", "str"} => (o.chg => e.kept = "F"))}
 \* the clause violated when no allowed outcome matches (s: a state consistent so far)
 ProgClause(s, op) ==
   LET L == s.o
